@@ -431,7 +431,14 @@ func (b *Body) rootSources(fn *ssa.Function, v ssa.Value, at ssa.Instruction) []
 			}
 		case *ssa.Const:
 			if isNamed(x.Type(), "container") {
-				return // the nil interface next to an error
+				// the nil interface next to an error is no root; next to a nil error it is one
+				if r, ok := at.(*ssa.Return); ok {
+					ei := errResultIndex(fn)
+					if ei >= 0 && ei < len(r.Results) && !b.definitelyNonNilErr(r.Results[ei], r.Block(), 0) {
+						out = append(out, rootSource{fn, v, at})
+					}
+				}
+				return
 			}
 		}
 		tn := derefNamed(v.Type())
